@@ -11,7 +11,7 @@ RULE = ('Hypothesis-generated abstract netlists (33 primitives through all docum
         'DFF Q/QN, latches, open input pins, open outputs, both port styles) x 0/1 stimuli x batch sizes 1..70 x 1..4 (sometimes 9, 33, 1100, 2600) cycles '
         'x {c_reuse} x {strip_forks}; oracle = own gate-by-gate evaluator. non-trivial: depth >= 3 and at least one of '
         '{reconvergent fan-out, state element feeding logic, open pin, batch size not a multiple of 8, >= 2 cycles}; '
-        'distinct by SHA-1 of the case. Part wide: a fixed small sequential netlist with 8193 .. 200003 patterns in one batch. Part big: a few deterministic chains with more than 2^16 nodes and lines and grids of 7k-36k cells with many values alive at once (index and counter arithmetic). In 2 cases of 5 the unconnected operand pins below a gate\'s arity hang on floating nets (undriven forks, one per pin or one shared): they read 0 all the same.')
+        'distinct by SHA-1 of the case. Part wide: a fixed small sequential netlist with 8193 .. 200003 patterns in one batch. Part big: a few deterministic chains with more than 2^16 nodes and lines and grids of 7k-36k cells with many values alive at once (index and counter arithmetic). In 2 cases of 5 the unconnected operand pins below a gate\'s arity hang on floating nets (undriven forks, one per pin or one shared): they read 0 all the same. In half of the cases a spare flip-flop created last is moved to node index 0 by removing a placeholder node (s_nodes follows the node order). Floating nets also with a pin list [None] (a driver line that was removed again).')
 ASSUMPTIONS = ['numba absent: the njit 2-valued loop runs as plain Python (same source)',
                'reference evaluator vk/refmodel.py written from the primitive names, independent of sim.py LUTs']
 
@@ -50,7 +50,8 @@ def prop(case):
     if [id(n) for n in c.s_nodes] != [id(n) for n in b.s_order()]:
         raise Violation(f's_nodes = {[n.name for n in c.s_nodes]}, documented order (ports as listed, flip-flops, latches) is {[n.name for n in b.s_order()]}')
     kinds = ['D' if 'dff' in c.s_nodes[i].kind.lower() else 'L' for i in range(nio, s_len)]
-    if kinds != sorted(kinds) or sorted(st_pos) != list(range(nio, s_len)):
+    spare = [b.s_pos(n) for n in c.nodes if n.name == 'zz_spare_ff']        # the builder's spare flip-flop (edit history), not part of the netlist
+    if kinds != sorted(kinds) or sorted(st_pos + spare) != list(range(nio, s_len)):
         raise Violation(f's_nodes order is not ports, flip-flops, latches: {kinds} {st_pos}')
     stim = np.full((s_len, sims), case['fill'], dtype=np.uint8)
     for k, p in enumerate(pi_pos):
